@@ -28,7 +28,7 @@ RULE = ("cases = (system, FFT grid, formula, degen_thresh, degen_Kramers); each 
         "mechanism) for mechanisms actually exercised: 'partial' (some but not all groups occupied at some level), "
         "'multiband_group' (a group of >=2 bands changes occupation inside the Fermi grid), 'below_window' (a group lies "
         "below EFmin and is completed), 'surface' (a finite difference is non-zero), 'select' (a partially selected group "
-        "contributes); 'history' cases: every ordered sequence (depth 2 quick / 3 thorough) over a 24-letter alphabet of "
+        "contributes); 'history' cases: every ordered sequence (depth 2 quick / 3 thorough) over a 26-letter alphabet of "
         "calculators (sea/surface x grids engineered so that EFmin/EFmax of a sea scan equal those of a surface scan, band "
         "selection, k_resolved, hole_like, tetra with identical / nearby / other Fermi arrays and thresholds) is evaluated on ONE "
         "shared Data_K object and the last result must equal the same calculator on a fresh Data_K")
@@ -73,7 +73,7 @@ def cases(tier, seed):
     yield from history_cases(tier)
 
 
-N_HISTORY_LETTERS = 24
+N_HISTORY_LETTERS = 26
 
 
 def history_cases(tier):
@@ -333,13 +333,31 @@ def run_history(case, seed):
         "JDOS": lambda: dynamic.JDOS(Efermi=np.array(G), omega=np.linspace(0.0, 1.0, 5)),
         "OptCond": lambda: dynamic.OpticalConductivity(Efermi=np.array(G), omega=np.linspace(0.0, 1.0, 5), smr_fixed_width=0.1),
     })
+    # the caller's Fermi-level buffer is re-used (modified in place) after the calculator was built: the calculator must
+    # keep working on, and report, the levels it was given
+    def buffer_reused(fder):
+        b = np.array(G, dtype=float)
+        c = StaticCalculator(Efermi=b, Formula=Formula, fder=fder, kwargs_formula=dict(kw), degen_thresh=thr)
+        b += 0.37
+        return c
+    alphabet["sea(G), caller's buffer modified afterwards"] = lambda: buffer_reused(0)
+    alphabet["surf1(G), caller's buffer modified afterwards"] = lambda: buffer_reused(1)
+    same_as = {"sea(G), caller's buffer modified afterwards": "sea(G)", "surf1(G), caller's buffer modified afterwards": "surf1(G)"}
+
+    def observe(res):
+        d = np.array(res.data)
+        en = getattr(res, "Energies", None)
+        if en is not None and len(en) > 0 and np.ndim(d) >= 1 and len(en[0]) == d.shape[0]:
+            # reported energies are part of the result (a value is only meaningful with the level it belongs to)
+            return np.concatenate([d.reshape(d.shape[0], -1).astype(complex), np.array(en[0], dtype=complex).reshape(-1, 1)], axis=1)
+        return d
     names = list(alphabet)
     assert len(names) == N_HISTORY_LETTERS
     fresh = {}
 
     def fresh_of(nm):
         if nm not in fresh:
-            fresh[nm] = np.array(alphabet[nm]()(make_data_K(system, case["grid"])).data)
+            fresh[nm] = observe(alphabet[nm]()(make_data_K(system, case["grid"])))
         return fresh[nm]
     nseq = 0
     for seq in itertools.product([names[case["first"]]], *([names] * (case["depth"] - 1))):
@@ -348,9 +366,9 @@ def run_history(case, seed):
         dK = make_data_K(system, case["grid"])
         out = None
         for nm in seq:
-            out = np.array(alphabet[nm]()(dK).data)
+            out = observe(alphabet[nm]()(dK))
         nseq += 1
-        ref = fresh_of(seq[-1])
+        ref = fresh_of(same_as.get(seq[-1], seq[-1]))
         sc = max(np.abs(ref).max(), 1e-300)
         if out.shape != ref.shape or not np.abs(out - ref).max() <= 1e-12 * sc:
             err = np.abs(out - ref).max() / sc if out.shape == ref.shape else np.inf
